@@ -190,4 +190,28 @@ def g_validate(repo):
     return g
 
 
-GROUPS = {'validate': g_validate, 'eval_blocks': g_eval_blocks, 'report': g_report, 'merge': g_merge, 'status': g_status, 'exit': g_exit, 'eval': g_eval, 'eval_disp': g_eval_disp}
+def g_tracker(repo):
+    g = GroupBuild('tracker', repo)
+    g.raw('prelude_common.rs')
+    g.raw('prelude_tracker.rs')
+    eval_types(g)
+    EC = RULES + 'eval_context.rs'
+    g.type(EC, 'EventRecord', derive=None)
+    g.type(EC, 'RecordTracker', derive=None)
+    IMPL = r"RecordTracer<'value> for RecordTracker<'value>"
+    W = "impl<'value> RecordTracker<'value>"
+    g.fn('U-rec-start', EC, 'start_record', impl=IMPL, spec='tracker_start_record.spec', wrap_impl=W, props=['C02', 'C08'])
+    g.fn('U-rec-end', EC, 'end_record', impl=IMPL, spec='tracker_end_record.spec', wrap_impl=W, props=['C02', 'C08'])
+    return g
+
+
+def g_index(repo):
+    g = GroupBuild('index', repo)
+    g.raw('prelude_common.rs')
+    g.raw('prelude_idx.rs')
+    eval_types(g)
+    g.fn('U-idx', RULES + 'eval_context.rs', 'retrieve_index', spec='retrieve_index.spec', props=['C01', 'C08'])
+    return g
+
+
+GROUPS = {'index': g_index, 'tracker': g_tracker, 'validate': g_validate, 'eval_blocks': g_eval_blocks, 'report': g_report, 'merge': g_merge, 'status': g_status, 'exit': g_exit, 'eval': g_eval, 'eval_disp': g_eval_disp}
